@@ -235,13 +235,14 @@ CHECKS["C10"] = {
     "legs": [{"name": "fm", "shards": 16}, {"name": "ris", "shards": 16}],
     "rule": "wrong-seed cases: (instance, wrong seed in {seed+1, random, negated, single byte i differs}) x recovering mode; verdict cases: (instance, input in {honest, every single-element alteration}) "
             "evaluated under 3 seed settings x 2 verifying modes (6 verdicts must agree) plus RecoverOnly; non-trivial = all verdicts were obtained; distinct = distinct (group, instance, seed variant / input)",
-    "require": {"quick": {"wrong_seed_recoveries": 2000, "verdicts_compared": 20000, "accepted_inputs": 100, "rejected_inputs": 3000, "recover_only_vs_recover_and_verify": 100},
+    "require": {"quick": {"wrong_seed_recoveries": 2000, "verdicts_compared": 20000, "accepted_inputs": 100, "rejected_inputs": 3000, "recover_only_vs_recover_and_verify": 100, "shared_seed_batches": 100, "adaptive_pair_verdicts": 600},
                 "thorough": {"wrong_seed_recoveries": 20000, "verdicts_compared": 200000, "accepted_inputs": 1000, "rejected_inputs": 30000, "recover_only_vs_recover_and_verify": 1000}},
     "assumptions": COMMON_ASSUMPTIONS + ["a wrong seed recovering the true mask by chance has probability 2^-252 per component"],
     "level_text": "For seeded single-commitment proofs over all bit lengths and degrees: recovery with any different seed (including seeds differing in one byte position only, e.g. the top byte) "
                   "returns Ok with a mask that shares no component with the true one; the accept/reject verdict of honest and of every singly-altered proof is identical with no seed, the right "
                   "seed and a wrong seed, in VerifyOnly and RecoverAndVerify; RecoverOnly returns what RecoverAndVerify returns on accepted inputs, also member by member in batches whose statements share one seed "
-                  "(own proof, another proof made with that seed, a proof made under another seed, an unseeded statement in between).",
+                  "(own proof, another proof made with that seed, a proof made under another seed, an unseeded statement in between); a pair of individually invalid proofs whose defects are tuned to the "
+                  "batch factors read on the previous run is rejected in VerifyOnly and in RecoverAndVerify alike, with and without seeds.",
     "level_note": "Held on the executed runs. Trusted: harness mutation generator.",
 }
 
